@@ -108,6 +108,8 @@ func dispatch(kind string, args []*Sexp) (out *Sexp) {
 		return runC19(kind, args)
 	case "size19":
 		return runSize19(args)
+	case "evalcancel":
+		return runEvalCancel(args)
 	case "abort09":
 		return runAbort09(args)
 	case "run02":
